@@ -255,6 +255,32 @@ def run(line):
         c = build(r.term())
         d = {k: build(v) for k, v in r.delta()}
         return show(BasicInterpreter(ExecutionPhase.Proof).instantiate(Proved(c), d).conclusion)
+    if op in ('MPS', 'GENS', 'BIS'):
+        from proof_generation.stateful_interpreter import StatefulInterpreter
+        it = StatefulInterpreter(ExecutionPhase.Proof)
+        if op == 'MPS':
+            l = Proved(build(r.term()))
+            rr = Proved(build(r.term()))
+            it.stack = [l, rr]
+            res = it.modus_ponens(l, rr)
+        elif op == 'GENS':
+            c = Proved(build(r.term()))
+            x = r.int()
+            it.stack = [c]
+            res = it.exists_generalization(c, P.EVar(x))
+        else:
+            c = Proved(build(r.term()))
+            d = {k: build(v) for k, v in r.delta()}
+            it.stack = list(d.values()) + [c]
+            res = it.instantiate(c, d)
+        if it.stack != [res]:
+            return 'CRASH:stack'
+        return show(res.conclusion)
+    if op == 'MPX':
+        from proof_generation.proof import ProofExp, ProofThunk
+        l = build(r.term())
+        rr = build(r.term())
+        return show(ProofExp().modus_ponens(ProofThunk(None, l), ProofThunk(None, rr)).conc)
     if op == 'PR':
         simp = r.next() == '1'
         ids = [r.int() for _ in range(r.int())]
